@@ -87,26 +87,27 @@ Theorem bc_rank_of_key_data_key d m n : wf_tmat (bT d) -> in_sub (bT d) m n ->
   bc_rank_of_key d (tm_data_key (bT d) m n) = bc_rank_of d m n.
 Proof. intros Wt Hs. unfold bc_rank_of_key. rewrite data_key_roundtrip by assumption. reflexivity. Qed.
 
-Theorem bc_plain_stored_key_roundtrip d m n : wf_tmat (bT d) -> in_sub (bT d) m n -> bc_is_plain d = true ->
+(* the key of the parsec_data_t built by data_of names the tile, with or without k-cyclicity *)
+Theorem bc_stored_key_roundtrip d m n : wf_tmat (bT d) -> in_sub (bT d) m n ->
   tm_key2coords (bT d) (bc_stored_key d m n) = (m, n).
-Proof. intros Wt Hs Hp. rewrite bc_plain_stored_key by assumption. apply data_key_roundtrip; assumption. Qed.
+Proof. intros Wt Hs. rewrite bc_stored_key_eq. apply data_key_roundtrip; assumption. Qed.
 
-(* the key the k-cyclic data_of gives to a tile is only right on the first period *)
-Theorem bc_kcyclic_stored_key_first_period d m n : wf_tmat (bT d) -> in_sub (bT d) m n ->
-  m + t_oi (bT d) < bkp d * bP d -> n + t_oj (bT d) < bkq d * bQ d ->
-  tm_key2coords (bT d) (bc_stored_key d m n) = (m, n).
+Theorem bc_stored_key_injective d m n m' n' : wf_tmat (bT d) -> in_sub (bT d) m n -> in_sub (bT d) m' n' ->
+  bc_stored_key d m n = bc_stored_key d m' n' -> m = m' /\ n = n'.
 Proof.
-  intros Wt Hs Hm Hn. destruct (in_sub_global _ m n Wt Hs).
-  rewrite bc_kcyc_stored_key_first_period by lia. apply data_key_roundtrip; assumption.
+  intros Wt Hs Hs' He. pose proof (bc_stored_key_roundtrip d m n Wt Hs) as H1.
+  pose proof (bc_stored_key_roundtrip d m' n' Wt Hs') as H2. rewrite He in H1. rewrite H1 in H2.
+  inversion H2. auto.
 Qed.
 
-(* witness: one process, kp = 2, four tile rows: tiles (0,0) and (2,0) get key 0 *)
+(* regression witness for the code before fix 12f6606: one process, kp = 2, four tile
+   rows: tiles (0,0) and (2,0) got key 0 *)
 Definition kcyc_witness : bcd := mk_bcd 1 1 2 1 0 0 ST_TILE (tmat_init ST_TILE 1 1 4 1 0 0 4 1).
-Theorem bc_kcyclic_stored_key_refuted :
+Theorem bc_kcyclic_stored_key_prefix_refuted :
   exists d m n m' n', wf_bc d /\ wf_tmat (bT d) /\ in_sub (bT d) m n /\ in_sub (bT d) m' n' /\
     (m, n) <> (m', n') /\ bc_rank_of d m n = bc_rank_of d m' n' /\
-    bc_stored_key d m n = bc_stored_key d m' n' /\
-    tm_key2coords (bT d) (bc_stored_key d m n) <> (m, n).
+    bc_stored_key_prefix d m n = bc_stored_key_prefix d m' n' /\
+    tm_key2coords (bT d) (bc_stored_key_prefix d m n) <> (m, n).
 Proof.
   exists kcyc_witness, 2, 0, 0, 0. unfold wf_bc, wf_tmat, in_sub. vm_compute.
   repeat split; try discriminate.
